@@ -280,6 +280,43 @@ def proof_gate(prop_file, extra_targets=()):
     return res
 
 
+COQCHK_ALLOWED = [
+    r"^Coq\.Floats\.(FloatAxioms|PrimFloat)\.(Leibniz\.)?\w+$",
+    r"^Coq\.Numbers\.Cyclic\.Int63\.(Uint63|PrimInt63|Sint63)\.\w+$",
+    r"^Coq\.Reals\.ClassicalDedekindReals\.(sig_forall_dec|sig_not_dec)$",
+    r"^Coq\.Logic\.FunctionalExtensionality\.functional_extensionality_dep$",
+    r"^Coq\.Logic\.Classical_Prop\.classic$",
+    r"^Coq\.Logic\.ProofIrrelevance\.proof_irrelevance$",
+    r"^Coq\.Logic\.Eqdep\.Eq_rect_eq\.eq_rect_eq$",
+    r"^Coq\.Logic\.JMeq\.JMeq_eq$",
+]
+
+
+def coqchk_gate(prop_file):
+    """Thorough tier: re-check the compiled props module and everything it depends on with the independent
+    checker `coqchk`, and compare the axioms IT reports (for the whole context) with the allowlist."""
+    t0 = time.time()
+    mod = "PV." + prop_file[:-2].replace("/", ".")
+    rc, out = sh(["coqchk", "-silent", "-o", "-Q", ".", "PV", mod], cwd=COQ, timeout=1500)
+    res = {"module": mod, "ok": False, "axioms": [], "problems": [], "wall_s": 0}
+    if rc != 0:
+        res["problems"].append("coqchk failed: " + out[-800:])
+    else:
+        m = re.search(r"\* Axioms:(.*?)\n\s*\n\* ", out, re.S)
+        names = [l.strip() for l in (m.group(1).split("\n") if m else []) if l.strip() and l.strip() != "<none>"]
+        res["axioms"] = names
+        bad = [n for n in names if not any(re.match(p, n) for p in COQCHK_ALLOWED)]
+        if bad:
+            res["problems"].append("coqchk reports axioms outside the allowlist: " + ", ".join(bad[:10]))
+        for label in ("type-in-type", "unsafe (co)fixpoints", "positivity is assumed"):
+            mm = re.search(re.escape(label) + r":\s*(\S+)", out)
+            if not mm or mm.group(1) != "<none>":
+                res["problems"].append("coqchk: %s: %s" % (label, mm.group(1) if mm else "section not found"))
+    res["ok"] = not res["problems"]
+    res["wall_s"] = time.time() - t0
+    return res
+
+
 # ------------------------------------------------------------------------------------------
 # known findings, replays, evidence
 
